@@ -24,7 +24,7 @@ pub enum Delivery {
 
 fn describe(d: &Delivery) -> String {
     match d {
-        Delivery::Native(s) => format!("native BufRead, chunks {:?}{}", &s.chunks[..s.chunks.len().min(12)], if s.interrupts.is_empty() { String::new() } else { format!(", Interrupted at calls {:?}", s.interrupts) }),
+        Delivery::Native(s) => format!("native BufRead, chunks {:?}{}", &s.chunks[..s.chunks.len().min(12)], if s.interrupts.is_empty() && s.burst.is_none() { String::new() } else { format!(", Interrupted at calls {:?} burst {:?}", s.interrupts, s.burst) }),
         Delivery::Buffered(c, s) => format!("BufReader::with_capacity({c}, ..) over a reader with chunks {:?}{}", &s.chunks[..s.chunks.len().min(12)], if s.interrupts.is_empty() { String::new() } else { format!(", Interrupted at calls {:?}", s.interrupts) }),
         Delivery::FromStr => "from_str".into(),
         Delivery::FromPath => "from_path".into(),
@@ -70,7 +70,10 @@ pub fn deliver(bytes: &[u8], d: &Delivery) -> Result<Delivered, String> {
         Delivery::FromPath => {
             let dir = crate::engine::verif_dir().join("harness/target/tmp").join(format!("c08-{}", std::process::id()));
             std::fs::create_dir_all(&dir).map_err(|e| format!("tmp dir: {e}"))?;
-            let p = dir.join(format!("{:?}-{:016x}.osu", std::thread::current().id(), hash64(bytes)).replace(['(', ')'], ""));
+            // the file name (extension, case, dots, blanks) must not matter
+            let h = hash64(bytes);
+            let ext = [".osu", ".osb", ".OSB", ".OSU", ".txt", "", ".osu.bak", ".mp3", " .osu", ".osz"][(h % 10) as usize];
+            let p = dir.join(format!("{:?}-{:016x}{ext}", std::thread::current().id(), h).replace(['(', ')'], ""));
             std::fs::write(&p, bytes).map_err(|e| format!("tmp write: {e}"))?;
             let r = rosu_map::from_path::<Beatmap>(&p).map_err(|e| format!("from_path error {e}"));
             // the inherent constructors are two more entry points for the same bytes
@@ -78,7 +81,7 @@ pub fn deliver(bytes: &[u8], d: &Delivery) -> Result<Delivered, String> {
             let _ = std::fs::remove_file(&p);
             let (map, map2) = (r?, r2?);
             if map2 != map {
-                return Err(format!("Beatmap::from_path decodes differently from rosu_map::from_path: {}", crate::oracle::cmp::full_diff(&map2, &map).unwrap_or_default()).chars().take(900).collect());
+                return Err(format!("Beatmap::from_path decodes differently from rosu_map::from_path (file name {:?}): {}", p.file_name(), crate::oracle::cmp::full_diff(&map2, &map).unwrap_or_default()).chars().take(900).collect());
             }
             let map3 = Beatmap::from_bytes(bytes).map_err(|e| format!("Beatmap::from_bytes error {e}"))?;
             if map3 != map {
@@ -162,7 +165,8 @@ fn gen_schedule(t: &mut Tape) -> Schedule {
     }
     let ni = t.below(5);
     let interrupts = (0..ni).map(|_| 1 + t.below(60) as u64).collect();
-    Schedule { chunks, interrupts }
+    let burst = if t.chance(8) { Some((1 + t.below(300) as u64, *t.pick(&[2u64, 30, 1100]))) } else { None };
+    Schedule { chunks, interrupts, burst }
 }
 
 fn gen_delivery(t: &mut Tape) -> Delivery {
@@ -458,7 +462,7 @@ pub fn replay(_ctx: &mut Ctx, ext: &str, bytes: &[u8]) -> Result<Option<String>,
     let reference = rosu_map::from_bytes::<Beatmap>(bytes).map_err(|e| Fail::new(format!("from_bytes error {e}"), "osu", bytes.to_vec()))?;
     let mut ds: Vec<Delivery> = (1..=64).map(|k| Delivery::Native(Schedule::fixed(k))).collect();
     ds.extend((1..=16).map(|c| Delivery::Buffered(c, Schedule::fixed(7))));
-    ds.push(Delivery::Native(Schedule { chunks: vec![2, 1, 5], interrupts: vec![1, 2, 5, 9] }));
+    ds.push(Delivery::Native(Schedule { chunks: vec![2, 1, 5], interrupts: vec![1, 2, 5, 9], burst: None }));
     ds.push(Delivery::FromPath);
     for d in ds {
         check_one(bytes, &reference, &d).map_err(|m| Fail::new(m, "osu", bytes.to_vec()))?;
